@@ -68,6 +68,9 @@ func init() {
 			c.R.Evaluations++
 			input := map[string]any{"files": filesInput(ms)}
 			first := realMerge(ms.Names, ms.Texts, "1.2")
+			if first.Frame != "" {
+				c.OracleFail("c12:frame", map[string]any{"files": filesInput(ms)}, first.Frame+" (the same list handed in again is then another list)", "")
+			}
 			c.D.Add("corr:merge/repeat", mergeOp(ms.Names, ms.Texts, "1.2"), first.Out, input)
 			c.D.Add("hyp:FilesWF/repeat", mergeWFOp(ms.Names, ms.Texts), "(wf true)", input)
 			extFiles := 0
